@@ -181,8 +181,12 @@ func (s *WSim) OpReceive(wn *WalletNode, ht *HeldToken, swapToTrusted bool) (uin
 }
 
 func (s *WSim) OpSendP2PK(wn, to *WalletNode, amount uint64, url string, fees bool) (*HeldToken, error) {
+	return s.OpSendP2PKFlag(wn, to, amount, url, fees, s.Rng.Intn(3) == 0)
+}
+
+func (s *WSim) OpSendP2PKFlag(wn, to *WalletNode, amount uint64, url string, fees, sigAll bool) (*HeldToken, error) {
 	var tags *nut11.P2PKTags
-	if s.Rng.Intn(3) == 0 {
+	if sigAll {
 		tags = &nut11.P2PKTags{Sigflag: nut11.SIGALL}
 	}
 	ps, err := wn.SendToPubkey(amount, url, to, tags, fees)
@@ -209,6 +213,53 @@ func (s *WSim) OpSendHTLC(wn *WalletNode, amount uint64, url string, fees bool) 
 	}
 	s.done("send-htlc", wn, err)
 	return ht, err
+}
+
+// Directed makes every kind of outgoing wallet request at least once, whatever the
+// PRNG chose in the random part of a history: plain / P2PK (SIG_INPUTS and SIG_ALL) /
+// HTLC tokens sent and received (tokens carry DLEQ where the wallet has it), with and
+// without swap to the trusted mint, a melt with a fee reserve (blank outputs), a
+// mint swap, a reclaim.
+func (s *WSim) Directed() {
+	if len(s.W.Wallets) < 2 {
+		return
+	}
+	a, b := s.W.Wallets[0], s.W.Wallets[1]
+	if a.W == nil || b.W == nil {
+		return
+	}
+	url := a.DefaultURL
+	if s.OpFund(a, 400, url) != nil {
+		return
+	}
+	recv := func(ht *HeldToken, err error, trusted bool) {
+		if err == nil && ht != nil {
+			s.OpReceive(b, ht, trusted)
+		}
+	}
+	ht, err := s.OpSend(a, 10, url, false)
+	recv(ht, err, false)
+	ht, err = s.OpSend(a, 11, url, true)
+	recv(ht, err, true)
+	ht, err = s.OpSendP2PKFlag(a, b, 12, url, false, false)
+	recv(ht, err, false)
+	ht, err = s.OpSendP2PKFlag(a, b, 14, url, true, true)
+	recv(ht, err, false)
+	ht, err = s.OpSendP2PKFlag(a, b, 15, url, false, true)
+	recv(ht, err, true)
+	ht, err = s.OpSendHTLC(a, 9, url, false)
+	recv(ht, err, false)
+	s.OpMelt(a, 150, url, lnmodel.PayPlan{Answer: lnmodel.ASucceeded})
+	if tr := s.trusted(a); len(tr) > 1 {
+		other := tr[0]
+		if other == url {
+			other = tr[1]
+		}
+		s.OpMintSwap(a, 20, url, other, lnmodel.PayPlan{Answer: lnmodel.ASucceeded})
+	}
+	if ht, err := s.OpSend(a, 7, url, false); err == nil && ht != nil {
+		s.OpReclaim(a)
+	}
 }
 
 // OpMelt: the wallet pays an external invoice of sat through mint url with the given Lightning plan.
